@@ -640,7 +640,15 @@ def r710(ctx, fx, et):
             if calls - {"is_special"} or not calls:
                 bad.append((n.get("ln"), sorted(calls)))
     # adaptors on the iterated collection that drop elements
-    filt = [y.get("name") for y in lib.hwalk(loop["scrut"]) if y.get("k") == "mcall" and y.get("name") in ("filter", "filter_map", "take", "skip", "take_while", "skip_while", "retain")]
+    filt = []
+    for y in lib.hwalk(loop["scrut"]):
+        if y.get("k") == "mcall" and y.get("name") in ("filter", "filter_map", "take", "skip", "take_while", "skip_while", "retain"):
+            # leaving out the special identifiers is the one condition there is
+            clo = lib.strip(y["args"][0]) if y.get("args") else {}
+            calls = {z.get("name") for z in lib.hwalk(clo.get("body", {})) if z.get("k") == "mcall"} if clo.get("k") == "closure" else {"?"}
+            if y.get("name") == "filter" and calls and calls <= {"is_special"}:
+                continue
+            filt.append(y.get("name"))
     key = "%s|Import|all-children-exported" % et.path
     ctx.inst(rid, key, sample={"pushes_in_the_loop": pushes, "other_conditions": bad, "filters_on_the_children": filt})
     if pushes < 1:
